@@ -43,6 +43,14 @@ class MatchV(KS.V):
         return "match"
 
 
+class TranslateReV(KS.V):
+    """The compiled regular expression of the escape table (`<compiler>._bind_translate_re`), also through a local."""
+    kind = "translate_re"
+
+    def __repr__(self):
+        return "translate_re"
+
+
 class TextNameV(KS.NameV):
     """A bind name read from the rendered statement text (escaped by construction)."""
 
@@ -83,8 +91,49 @@ class KeySpace2(KS.KeySpace):
         self.text_subs: List[Tuple[ast.Call, str]] = []      # (substitution call, text argument)
         self._keep: List[Any] = []
 
+    # ---------------------------------------------------------------- emptiness of the escape map, however spelled
+    @staticmethod
+    def _emptiness(test):
+        """`len(X)`, `len(X) > 0`, `len(X) != 0`, `len(X) >= 1` -> (X, False);  `len(X) == 0`, `len(X) < 1` -> (X, True)."""
+        def is_len(e):
+            return isinstance(e, ast.Call) and isinstance(e.func, ast.Name) and e.func.id == "len" and len(e.args) == 1 and not e.keywords
+        if is_len(test):
+            return test.args[0], False
+        if isinstance(test, ast.Compare) and len(test.ops) == 1 and is_len(test.left) and isinstance(test.comparators[0], ast.Constant):
+            op, c = test.ops[0], test.comparators[0].value
+            if (isinstance(op, (ast.Gt, ast.NotEq)) and c == 0) or (isinstance(op, ast.GtE) and c == 1):
+                return test.left.args[0], False
+            if (isinstance(op, ast.Eq) and c == 0) or (isinstance(op, ast.Lt) and c == 1):
+                return test.left.args[0], True
+        return None
+
+    def _is_escmap_test(self, test, env):
+        if super()._is_escmap_test(test, env):
+            return True
+        if isinstance(test, ast.Compare) and len(test.ops) == 1 and isinstance(test.ops[0], ast.IsNot) \
+                and isinstance(test.comparators[0], ast.Constant) and test.comparators[0].value is None:
+            test = test.left
+        if isinstance(test, ast.Call) and isinstance(test.func, ast.Name) and test.func.id == "bool" and len(test.args) == 1:
+            test = test.args[0]
+        if isinstance(test, (ast.Name, ast.Attribute)):
+            v = self.ev(test, env, quiet=True)
+            return isinstance(v, KS.DictV) and getattr(v, "whole_escmap", False)
+        return False
+
     # ---------------------------------------------------------------- refinement by membership in a translation map
     def _refine(self, test, pol, env):
+        em = self._emptiness(test)
+        if em is not None:
+            return self._refine(em[0], (not pol) if em[1] else pol, env)
+        if isinstance(test, ast.Call) and isinstance(test.func, ast.Attribute) and test.func.attr in ("search", "match") \
+                and len(test.args) == 1 and isinstance(test.args[0], ast.Name) and not pol \
+                and isinstance(test.func.value, ast.Name) and isinstance(env.get(test.func.value.id), TranslateReV):
+            # no escape character found in the name (the regex is reached through a local alias)
+            old = env.get(test.args[0].id, KS.U)
+            if isinstance(old, KS.NameV):
+                env = dict(env)
+                env[test.args[0].id] = KS.NameV(BOTH if old.space in (RAW, ESC, BOTH) else old.space)
+            return env
         if isinstance(test, ast.Compare) and len(test.ops) == 1 and isinstance(test.ops[0], (ast.In, ast.NotIn)) \
                 and isinstance(test.left, ast.Name):
             absent = isinstance(test.ops[0], ast.NotIn) == bool(pol)
@@ -100,6 +149,8 @@ class KeySpace2(KS.KeySpace):
 
     # ---------------------------------------------------------------- expressions
     def _ev(self, e, env, quiet):
+        if isinstance(e, ast.Attribute) and e.attr == self.translate_re:
+            return TranslateReV()
         if isinstance(e, ast.IfExp):
             idiom = self._conditional_translation(e)
             if idiom is not None:
@@ -111,6 +162,17 @@ class KeySpace2(KS.KeySpace):
                     ast.copy_location(synth.func, e)
                     self._keep.append(synth)
                     return self._call(synth, env, quiet)
+        if isinstance(e, ast.DictComp) and len(e.generators) == 1 and not e.generators[0].ifs:
+            # a dictionary built from ALL items of the escape map (its inverse, a copy) is empty exactly when the
+            # escape map is: testing it for emptiness says the same thing about the world
+            it = e.generators[0].iter
+            if isinstance(it, ast.Call) and isinstance(it.func, ast.Attribute) and it.func.attr == "items" and not it.args:
+                src = self.ev(it.func.value, env, quiet=True)
+                if isinstance(src, KS.DictV) and (src.escmap or getattr(src, "whole_escmap", False)):
+                    out = super()._ev(e, env, quiet)
+                    if isinstance(out, KS.DictV):
+                        out.whole_escmap = True
+                    return out
         return super()._ev(e, env, quiet)
 
     @staticmethod
@@ -149,6 +211,10 @@ class KeySpace2(KS.KeySpace):
                     arg = self.ev(c.args[0], env, quiet=True)
                     if isinstance(arg, KS.NameV):
                         self.translations.append(Translation(recv.key.space, recv.val.space, arg.space, unparse(c)[:60], c))
+            if meth == "sub" and isinstance(fn.value, ast.Name) and isinstance(env.get(fn.value.id), TranslateReV):
+                for a in c.args:
+                    self.ev(a, env, quiet)
+                return KS.NameV(ESC)
             if dotted(fn) == "itertools.chain":
                 out: KS.V = KS.NameV(BOT)
                 for a in c.args:
@@ -164,7 +230,8 @@ class KeySpace2(KS.KeySpace):
                 cb = text = None
                 if dotted(fn) == "re.sub" and len(c.args) >= 3:
                     cb, text = c.args[1], c.args[2]
-                elif meth == "sub" and len(c.args) >= 2 and not (dotted(fn.value) or "").endswith(self.translate_re):
+                elif meth == "sub" and len(c.args) >= 2 and not (dotted(fn.value) or "").endswith(self.translate_re) \
+                        and not isinstance(self.ev(fn.value, env, quiet=True), TranslateReV):
                     cb, text = c.args[0], c.args[1]
                 if cb is not None and self._is_callback(cb, env):
                     if not quiet:
